@@ -123,6 +123,21 @@ FILTER_PROGRAMS = [
 ]
 
 
+# operations other than printing on containers that contain themselves (printing is excluded by the property itself)
+CYC_SETUP = ("let a = [1]; push(a, a); let b = [1]; push(b, b); let m = map {1: 2}; insert(m, 2, m); "
+             "let n = map {1: 2}; insert(n, 2, n); ")
+CYC_OPS = [
+    ("eq-same-array", "a == a"), ("eq-same-map", "m == m"), ("eq-arrays", "a == b"), ("ne-arrays", "a != b"), ("eq-maps", "m == n"),
+    ("eq-nested", "[a] == [b]"), ("eq-element", "a[1] == b"), ("eq-wrapped-same", "[a] == [a]"), ("order-arrays", "a < b"),
+    ("insert-key", "insert(map {}, a, 1)"), ("map-literal-key", "map {a: 1}"), ("get-key", "get(map {}, a)"), ("contains-key", "contains(map {}, a)"),
+    ("map-as-key", "insert(m, n, 1)"), ("sort", "sort([a, b]); 1"), ("match", "match a { 1 => 1, _ => 2 }"), ("concat", "a + b; 1"),
+    ("len", "len(a)"), ("first", "first(a); 1"), ("last", "last(a); 1"), ("rest", "rest(a); 1"), ("push", "push(a, b); 1"), ("pop", "pop(a); 1"),
+    ("truthiness", "if a { 1 } else { 2 }"), ("not", "!a"), ("and", "a && m"), ("index", "a[1][1][1][0]"), ("map-index", "m[2][2][1]"),
+    ("set-index", "a[0] = a; 1"), ("is_error", "is_error(a)"), ("rebind", "a = null; m = null; 1"), ("call-arg", "(fn(x) { len(x) })(a)"),
+    ("closure-capture", "fn mk() { let c = [1]; push(c, c); fn() { len(c) } } mk()()"), ("array-of-both", "len([a, b, m, n])"),
+]
+
+
 def run(chk):
     rng = chk.rng
     quick = chk.tier == "quick"
@@ -177,6 +192,8 @@ def run(chk):
                 jobs.append(("recursion", tmpl[:30], tmpl))
         for s in many_locals():
             jobs.append(("many", s[:24], s))
+        for name, op in CYC_OPS:
+            jobs.append(("cyclic", name, CYC_SETUP + "let r = " + op + ";"))
         try:
             from . import gen
             for _ in range(1500 if quick else 40000):
@@ -225,7 +242,7 @@ def run(chk):
                 if i % 2503 == 0:
                     chk.sample({"class": cls, "program": core.short(src, 160), "outcome": oc, "rt": r.get("rt")})
             elif oc in ("panic", "died", "hang"):
-                suspects.append((src, r, cls))
+                suspects.append((src, r, cls, tag))
             else:
                 chk.inconc("probe outcome %s" % oc)
         # stdin / exit programs go straight to the binary
@@ -270,11 +287,12 @@ def run(chk):
                     report_crash(chk, prog + "   [stdout = /dev/full]", rr, "full-stdout")
         # confirm in-process suspects on the real binary, both profiles
         seen = {}
-        for src, r, cls in suspects:
-            key = (r.get("outcome"), (r.get("panic") or {}).get("loc"))
-            if key in seen and seen[key] >= 2:
+        tried = {}
+        for src, r, cls, tag in suspects:
+            key = (r.get("outcome"), (r.get("panic") or {}).get("loc"), tag if cls == "cyclic" else None)
+            if seen.get(key, 0) >= 2 or tried.get(key, 0) >= 40:
                 continue
-            seen[key] = seen.get(key, 0) + 1
+            tried[key] = tried.get(key, 0) + 1
             with open(path, "w", encoding="utf-8") as f:
                 f.write(src)
             confirmed = None
@@ -285,21 +303,25 @@ def run(chk):
                     break
             if confirmed is not None:
                 err = confirmed["err"].decode("utf-8", "replace")
-                if ("capacity overflow" in err or "memory allocation of" in err) and src in asts:
-                    # a request for more memory than the machine has is excluded by the property; the evaluator
-                    # tells whether the program really asks for that (huge string repetition)
-                    ev = gen.evaluate(asts[src])
-                    if ev.get("status") == "unspecified" and "huge" in ev.get("reason", ""):
-                        chk.count("excluded: allocation beyond the machine")
-                        continue
-                report_crash(chk, src, confirmed, cls, r)
+                why = excluded_by_property(src, err, asts)
+                if why == "self-containing":
+                    # a generated program that builds a self-containing container and then prints it (excluded by the
+                    # property) or compares / hashes it (the known finding of the 'cyclic' family): not told apart here
+                    seen[key] = seen.get(key, 0) + 1
+                    report_crash(chk, src, confirmed, cls, r, tag="cyclic|generated-program")
+                    continue
+                if why:
+                    chk.count("excluded: " + why)
+                    continue
+                seen[key] = seen.get(key, 0) + 1
+                report_crash(chk, src, confirmed, cls, r, tag=(tag if cls == "cyclic" else None))
             elif r.get("outcome") == "hang":
                 chk.inconc("probe hang not reproduced as a crash")
             else:
                 chk.inconc("probe-only %s" % r.get("outcome"))
         chk.count("probe_suspects", len(suspects))
         if os.environ.get("VF_DEBUG"):
-            for src, r, cls in suspects:
+            for src, r, cls, tag in suspects:
                 print("SUSPECT", r.get("outcome"), (r.get("panic") or {}).get("loc"), core.short(src, 150).replace("\n", " "))
         # filter programs end to end
         pcap = os.path.join(work, "in.pcap")
@@ -322,7 +344,34 @@ def run(chk):
         shutil.rmtree(work, ignore_errors=True)
 
 
-def report_crash(chk, src, rr, cls, probe_result=None):
+def mem_total():
+    try:
+        for l in open("/proc/meminfo"):
+            if l.startswith("MemTotal:"):
+                return int(l.split()[1]) * 1024
+    except OSError:
+        pass
+    return 1 << 36
+
+
+def excluded_by_property(src, err, asts):
+    """The two exclusions C08 itself states: a request for more memory than the machine has, and printing a
+    container that contains itself. -> reason or None"""
+    import re
+    if "capacity overflow" in err:
+        return "allocation beyond the machine (more than isize::MAX bytes requested)"
+    m = re.search(r"memory allocation of (\d+) bytes failed", err)
+    if m and int(m.group(1)) > mem_total():
+        return "allocation beyond the machine (one request larger than the installed memory)"
+    if src in asts and ("overflowed its stack" in err or "stack overflow" in err):
+        from . import gen
+        ev = gen.evaluate(asts[src])
+        if ev.get("status") == "unspecified" and ev.get("reason") in ("self-containing container", "python recursion"):
+            return "self-containing"
+    return None
+
+
+def report_crash(chk, src, rr, cls, probe_result=None, tag=None):
     err = rr["err"].decode("utf-8", "replace")
     loc = ""
     msg = ""
@@ -333,5 +382,9 @@ def report_crash(chk, src, rr, cls, probe_result=None):
         sig = "panic|" + core.panic_site_sig(loc if loc.startswith("/") else os.path.join(core.REPO, loc), msg)
     else:
         sig = "death|rc=%s|%s" % (rr["rc"], core.msg_class(err[-60:]))
+    if tag and cls == "cyclic":
+        sig = "cyclic|%s|%s" % (tag, "stack-overflow" if "overflowed its stack" in err else sig)
+    elif tag:
+        sig = tag
     chk.violation(sig, "%s program crashes the interpreter (status %s): %s  [%s]" % (cls, rr["rc"], msg or err[-120:], core.short(src, 120)),
                   {"src": src, "rc": rr["rc"], "stderr": err[-600:], "probe": probe_result})
